@@ -58,6 +58,13 @@ def labels_with_unknown(y, case):
   return y
 
 
+def own_wrap_pairs(X, pn):
+  """pairs and labels formed by the harness from (a, b, c, d): positives (+1) first, then negatives (-1)"""
+  a, b, c, d = [np.asarray(v) for v in pn]
+  idx = np.vstack([np.column_stack([a, b]), np.column_stack([c, d])])
+  return X[idx], np.r_[np.ones(len(a), dtype=int), -np.ones(len(c), dtype=int)]
+
+
 def build(name, case, data, y):
   """(supervised params, function fitting the base learner on helper-derived constraints)"""
   C = mlsub('constraints')
@@ -76,7 +83,7 @@ def build(name, case, data, y):
 
     def base():
       pn = C.Constraints(y).positive_negative_pairs(n_eff, random_state=s)
-      P, yy = C.wrap_pairs(X, pn)
+      P, yy = own_wrap_pairs(X, pn)
       return E.build('ITML', dict(prior=opt, max_iter=10, random_state=s)), (P, yy)
     return ps, base
   if name == 'MMC_Supervised':
@@ -85,7 +92,7 @@ def build(name, case, data, y):
 
     def base():
       pn = C.Constraints(y).positive_negative_pairs(n_eff, random_state=s)
-      P, yy = C.wrap_pairs(X, pn)
+      P, yy = own_wrap_pairs(X, pn)
       return E.build('MMC', dict(init=opt, max_iter=6, max_proj=500, tol=1e-6, random_state=s)), (P, yy)
     return ps, base
   if name == 'SDML_Supervised':
@@ -94,7 +101,7 @@ def build(name, case, data, y):
 
     def base():
       pn = C.Constraints(y).positive_negative_pairs(n_eff, random_state=s)
-      P, yy = C.wrap_pairs(X, pn)
+      P, yy = own_wrap_pairs(X, pn)
       return E.build('SDML', dict(prior=opt, sparsity_param=0.02, balance_param=ps['balance_param'], random_state=s)), (P, yy)
     return ps, base
   if name == 'LSML_Supervised':
